@@ -189,6 +189,65 @@ pub fn expand(p: &str) -> Vec<String> {
     out
 }
 
+/// C04: the expansion as the proof states it (specs/lib/brace_expansion.rs, `dhas`): text without '{' stands for itself; A{I}C (first
+/// '{', its depth-matching '}') stands for A + x + y, x an expansion of one alternative of I (split at the commas of I's own
+/// depth), y an expansion of C.  Transcribed only to cross-check the formal definition against `expand` (bounded).
+pub fn expand_d(p: &str) -> Vec<String> {
+    let cs: Vec<char> = p.chars().collect();
+    let Some(i) = cs.iter().position(|&c| c == '{') else { return vec![p.to_string()] };
+    // seek(s, i + 1, 1, close)
+    let mut d = 1i64;
+    let mut close = None;
+    for k in i + 1..cs.len() {
+        if cs[k] == '}' && d == 1 {
+            close = Some(k);
+            break;
+        }
+        d += match cs[k] { '{' => 1, '}' => -1, _ => 0 };
+    }
+    let Some(j) = close else { return vec![] };
+    // split_top(interior): seek(.., 0, 0, comma)
+    let inner: Vec<char> = cs[i + 1..j].to_vec();
+    let mut alts: Vec<String> = vec![];
+    let mut start = 0;
+    loop {
+        let mut d = 0i64;
+        let mut comma = None;
+        for k in start..inner.len() {
+            if d < 0 {
+                break;
+            }
+            if inner[k] == ',' && d == 0 {
+                comma = Some(k);
+                break;
+            }
+            d += match inner[k] { '{' => 1, '}' => -1, _ => 0 };
+        }
+        match comma {
+            Some(c) => {
+                alts.push(inner[start..c].iter().collect());
+                start = c + 1;
+            }
+            None => {
+                alts.push(inner[start..].iter().collect());
+                break;
+            }
+        }
+    }
+    let pre: String = cs[..i].iter().collect();
+    let post: String = cs[j + 1..].iter().collect();
+    let ys = expand_d(&post);
+    let mut out = vec![];
+    for a in alts {
+        for x in expand_d(&a) {
+            for y in ys.iter() {
+                out.push(format!("{}{}{}", pre, x, y));
+            }
+        }
+    }
+    out
+}
+
 /// C05: shell glob, whole-name, case-sensitive: '*' any run, '?' one char, [set] / [!set] with ranges
 pub fn glob_match(p: &[char], n: &[char]) -> bool {
     if p.is_empty() {
